@@ -698,3 +698,35 @@ Example ex_getitem :
   getitem fixed COneD (init fixed COneD true 1 [[0];[1];[2];[3]] [5;6;7;8] [] (XDomain 0 3)) (IMask [true;false;false;true])
   = OSel COneD [[0];[3]] [5;8] (XDomain 0 3).
 Proof. reflexivity. Qed.
+
+(* instances: the hypotheses of the main theorems hold on concrete, non-trivial data *)
+Example ex_good : good fixed.
+Proof. repeat split. Qed.
+
+Example ex_refines_instance :=
+  query_refines_spec_lemma ball_ref fixed ball_ref_ok_lemma ex_good CMol false 3 [[1;0;0];[0;2;0]] [3;4] [] XNone
+    [SetWeights [5;6]; SetPoints false [[0;2;0];[1;0;0]]; Query (CVec [0;0;0]) (RFin 4)] (CVec [0;0;0]) 1 eq_refl.
+
+Example ex_partial_pinned :
+  exists out, fst (query ball_ref pinned CGrid
+                     (exec ball_ref pinned CGrid (init pinned CGrid false 1 [[0];[5]] [1;2] [] XNone)
+                           [SetWeights [3;4]; Query (CVec [5]) (RFin 0)]) (CVec [0]) (RFin 0)) = OLocal (CVec [0]) out /\
+              Permutation out [(0%nat, [0], 3)].
+Proof.
+  apply (query_refines_spec_partial_lemma ball_ref ball_ref_ok_lemma pinned CGrid false 1 [[0];[5]] [1;2] [] XNone
+           [SetWeights [3;4]; Query (CVec [5]) (RFin 0)] (CVec [0]) 0).
+  - discriminate.
+  - right. reflexivity.
+  - reflexivity.
+  - right. discriminate.
+Qed.
+
+Example ex_empty_refuted := empty_sphere_refuted_lemma ball_ref pinned ball_ref_ok_lemma eq_refl.
+Example ex_stale_refuted := stale_tree_refuted_lemma ball_ref pinned ball_ref_ok_lemma eq_refl.
+Example ex_atom_finite_refuted :=
+  atomgrid_finite_refuted_lemma ball_ref pinned false 3 [[6;0;0];[4;0;0]] [1;2] [5;0;0] XNone
+    [SetWeights [3;4]; Query (CVec [5;0;0]) RInf] (CVec [5;0;0]) 1 eq_refl eq_refl.
+Example ex_atom_inf_refuted := atomgrid_inf_refuted_lemma ball_ref pinned eq_refl.
+Example ex_npint_refuted :=
+  getitem_npint_refuted_lemma pinned COneD (init pinned COneD true 1 [[0];[5]] [1;2] [] (XDomain 0 5)) (-1) 1%nat
+    (or_intror (or_introl eq_refl)) eq_refl eq_refl.
